@@ -17,24 +17,73 @@ import Umya.Spec.XmlLex
 namespace Umya.Thm.C02
 open Umya.XmlEsc
 
-/-! ### (1) escaping channel: model of quick-xml's writer side against the independent reader -/
+/-! ### (1) escaping channel: model of the writer's escaping against the independent reader -/
 
-theorem expandGo_escChar (lit : Char → List Char) (c : Char) (rest : List Char)
-    (hlit : lit c = [c]) :
-    Umya.Spec.Xml.expandGo lit none (escChar c ++ rest) = (Umya.Spec.Xml.expandGo lit none rest).map (c :: ·) := by
+open Umya.Spec.Xml in
+theorem expandGo_escCharOld (lit : Char → List Char) (c : Char) (rest : List Char) (hlit : lit c = [c]) :
+    expandGo lit none (escCharOld c ++ rest) = (expandGo lit none rest).map (c :: ·) := by
+  unfold escCharOld
+  split
+  · rename_i h; subst h; simp [expandGo, resolveRef]
+  · split
+    · rename_i h; subst h; simp [expandGo, resolveRef]
+    · split
+      · rename_i h; subst h; simp [expandGo, resolveRef]
+      · split
+        · rename_i h; subst h; simp [expandGo, resolveRef]
+        · split
+          · rename_i h; subst h; simp [expandGo, resolveRef]
+          · rename_i h1 h2 h3 h4 h5
+            simp [expandGo, h3, hlit]
+
+open Umya.Spec.Xml in
+theorem spec_resolve_refs : resolveRef "#13".toList = some ['\r'] ∧ resolveRef "#10".toList = some ['\n'] ∧
+    resolveRef "#9".toList = some ['\t'] := by decide
+
+open Umya.Spec.Xml in
+theorem expandGo_ref (lit : Char → List Char) (pat : List Char) (v : List Char) (rest : List Char)
+    (hp : resolveRef pat = some v) (hclean : ∀ c ∈ pat, c ≠ ';' ∧ c ≠ '&' ∧ c ≠ '<') :
+    expandGo lit none (('&' :: pat) ++ ';' :: rest) = (expandGo lit none rest).map (v ++ ·) := by
+  have key : ∀ (p acc : List Char), (∀ c ∈ p, c ≠ ';' ∧ c ≠ '&' ∧ c ≠ '<') →
+      expandGo lit (some acc) (p ++ ';' :: rest) = (resolveRef (acc.reverse ++ p)).bind fun v => (expandGo lit none rest).map (v ++ ·) := by
+    intro p
+    induction p with
+    | nil => intro acc _; simp [expandGo]
+    | cons c cs ih =>
+      intro acc h
+      have hc := h c (by simp)
+      simp only [List.cons_append, expandGo, hc.1, hc.2.1, hc.2.2, if_false, false_or]
+      rw [ih (c :: acc) (fun d hd => h d (List.mem_cons_of_mem _ hd))]
+      simp
+  simp only [List.cons_append, expandGo, if_true]
+  rw [key pat [] hclean]
+  simp [hp]
+
+open Umya.Spec.Xml in
+theorem expandGo_escChar (lit : Char → List Char) (c : Char) (rest : List Char) (hlit : c ≠ '\r' → lit c = [c]) :
+    expandGo lit none (escChar c ++ rest) = (expandGo lit none rest).map (c :: ·) := by
   unfold escChar
   split
-  · rename_i h; subst h; simp [Umya.Spec.Xml.expandGo, Umya.Spec.Xml.resolveRef]
+  · rename_i h; subst h
+    have := expandGo_ref lit "#13".toList ['\r'] rest spec_resolve_refs.1 (by decide)
+    simpa using this
+  · rename_i h; exact expandGo_escCharOld lit c rest (hlit h)
+
+open Umya.Spec.Xml in
+theorem expandGo_attrEscChar (lit : Char → List Char) (c : Char) (rest : List Char)
+    (hlit : c ≠ '\r' → c ≠ '\n' → c ≠ '\t' → lit c = [c]) :
+    expandGo lit none (attrEscChar c ++ rest) = (expandGo lit none rest).map (c :: ·) := by
+  unfold attrEscChar
+  split
+  · rename_i h; subst h
+    have := expandGo_ref lit "#9".toList ['\t'] rest spec_resolve_refs.2.2 (by decide)
+    simpa using this
   · split
-    · rename_i h; subst h; simp [Umya.Spec.Xml.expandGo, Umya.Spec.Xml.resolveRef]
-    · split
-      · rename_i h; subst h; simp [Umya.Spec.Xml.expandGo, Umya.Spec.Xml.resolveRef]
-      · split
-        · rename_i h; subst h; simp [Umya.Spec.Xml.expandGo, Umya.Spec.Xml.resolveRef]
-        · split
-          · rename_i h; subst h; simp [Umya.Spec.Xml.expandGo, Umya.Spec.Xml.resolveRef]
-          · rename_i h1 h2 h3 h4 h5
-            simp [Umya.Spec.Xml.expandGo, h3, hlit]
+    · rename_i h; subst h
+      have := expandGo_ref lit "#10".toList ['\n'] rest spec_resolve_refs.2.1 (by decide)
+      simpa using this
+    · rename_i ht hn
+      exact expandGo_escChar lit c rest (fun hr => hlit hr hn ht)
 
 theorem normalizeEol_noCR (s : List Char) (h : '\r' ∉ s) : Umya.Spec.Xml.normalizeEol s = s := by
   induction s with
@@ -49,60 +98,47 @@ theorem normalizeEol_noCR (s : List Char) (h : '\r' ∉ s) : Umya.Spec.Xml.norma
     · rename_i heq; injection heq with h1 h2; subst h1; subst h2; rw [ih hr]
     · rename_i heq; simp at heq
 
-theorem escape_noCR (s : List Char) (h : '\r' ∉ s) : '\r' ∉ escape s := by
+theorem attrEscape_noCR (s : List Char) : '\r' ∉ attrEscape s := fun h => (attrEscape_safe s _ h).2.2.2.2.1 rfl
+
+theorem escape_noCR (s : List Char) : '\r' ∉ escape s := by
   intro hm
   simp only [escape, List.mem_flatMap] at hm
-  obtain ⟨d, hd, hin⟩ := hm
+  obtain ⟨d, _, hin⟩ := hm
   unfold escChar at hin
   split at hin
   · simp at hin
-  · split at hin
-    · simp at hin
-    · split at hin
-      · simp at hin
-      · split at hin
-        · simp at hin
-        · split at hin
-          · simp at hin
-          · simp at hin; subst hin; exact h hd
+  · rename_i hr
+    exact hr (escCharOld_ws d '\r' hin (Or.inl rfl)).symm
 
-/-- Character data: whatever text the writer escapes into a text node, the independent reader reads
-    back exactly that text — provided it contains no carriage return (a conformant reader
-    normalises `\r`; the writer emits it raw: the recorded defect). -/
-theorem C02_text_channel (s : List Char) (h : '\r' ∉ s) :
-    Umya.Spec.Xml.textValue (escape s) = some s := by
+/-- Character data: whatever text the writer puts into a text node, the independent reader reads
+    back exactly that text — every text, carriage returns included (they are written as `&#13;`). -/
+theorem C02_text_channel (s : List Char) : Umya.Spec.Xml.textValue (escape s) = some s := by
   unfold Umya.Spec.Xml.textValue
-  rw [normalizeEol_noCR _ (escape_noCR s h)]
+  rw [normalizeEol_noCR _ (escape_noCR s)]
   unfold escape
-  clear h
   induction s with
   | nil => rfl
-  | cons c r ih => rw [List.flatMap_cons, expandGo_escChar _ c _ rfl, ih]; rfl
+  | cons c r ih => rw [List.flatMap_cons, expandGo_escChar _ c _ (fun _ => rfl), ih]; rfl
 
-/-- Attribute values: read back exactly, provided the text contains no literal tab, line feed or
-    carriage return (attribute-value normalisation turns those into blanks; the writer does not
-    write them as character references). -/
-theorem C02_attr_channel (s : List Char) (h : '\r' ∉ s ∧ '\n' ∉ s ∧ '\t' ∉ s) :
-    Umya.Spec.Xml.attrValue (escape s) = some s := by
+/-- Attribute values: read back exactly, for every text (tab, line feed and carriage return are
+    written as character references, so attribute-value normalisation does not touch them). -/
+theorem C02_attr_channel (s : List Char) : Umya.Spec.Xml.attrValue (attrEscape s) = some s := by
   unfold Umya.Spec.Xml.attrValue
-  rw [normalizeEol_noCR _ (escape_noCR s h.1)]
-  unfold escape
+  rw [normalizeEol_noCR _ (attrEscape_noCR s)]
+  unfold attrEscape
   induction s with
   | nil => rfl
   | cons c r ih =>
-    have hc : c ≠ '\r' ∧ c ≠ '\n' ∧ c ≠ '\t' := by
-      refine ⟨?_, ?_, ?_⟩ <;> (intro e; subst e; simp at h)
-    have hr : '\r' ∉ r ∧ '\n' ∉ r ∧ '\t' ∉ r :=
-      ⟨fun e => h.1 (List.mem_cons_of_mem _ e), fun e => h.2.1 (List.mem_cons_of_mem _ e), fun e => h.2.2 (List.mem_cons_of_mem _ e)⟩
-    rw [List.flatMap_cons, expandGo_escChar _ c _ (by simp [hc.1, hc.2.1, hc.2.2]), ih hr]; rfl
+    rw [List.flatMap_cons, expandGo_attrEscChar _ c _ (by intro h1 h2 h3; simp [h1, h2, h3]), ih]; rfl
 
-/-- the two clauses above are sharp: a carriage return in a text node, a line feed in an
-    attribute, do not survive a conformant reader -/
-theorem C02_cr_in_text_fails : Umya.Spec.Xml.textValue (escape ['a', '\r', 'b']) ≠ some ['a', '\r', 'b'] := by decide
-theorem C02_lf_in_attr_fails : Umya.Spec.Xml.attrValue (escape ['a', '\n', 'b']) ≠ some ['a', '\n', 'b'] := by decide
+/-- the defect that was repaired: with quick-xml's plain `escape` a carriage return in a text node
+    and a line feed in an attribute do not survive a conformant reader -/
+theorem C02_cr_in_text_fails : Umya.Spec.Xml.textValue (escapeOld ['a', '\r', 'b']) ≠ some ['a', '\r', 'b'] := by decide
+theorem C02_lf_in_attr_fails : Umya.Spec.Xml.attrValue (escapeOld ['a', '\n', 'b']) ≠ some ['a', '\n', 'b'] := by decide
 
-/-- and the escaped text can never end the attribute or open a tag -/
-theorem C02_escaped_is_inert (s : List Char) : ∀ c ∈ escape s, c ≠ '<' ∧ c ≠ '"' ∧ c ≠ '\'' ∧ c ≠ '>' := escape_safe s
+/-- and the escaped text can never end the attribute, open a tag, or be re-normalised -/
+theorem C02_escaped_is_inert (s : List Char) :
+    ∀ c ∈ attrEscape s, c ≠ '<' ∧ c ≠ '"' ∧ c ≠ '\'' ∧ c ≠ '>' ∧ c ≠ '\r' ∧ c ≠ '\n' ∧ c ≠ '\t' := attrEscape_safe s
 
 /-! ### (2) sheetData: rows and cells strictly ascending, nothing lost -/
 
@@ -213,7 +249,8 @@ theorem C02_unordered_pairing_fails :
 
 /-! ### non-vacuity -/
 
-example : '\r' ∉ ['a', '&', '<', '"', '\n', 'b'] ∧ Umya.Spec.Xml.textValue (escape ['a', '&', '<', '"', '\n', 'b']) = some ['a', '&', '<', '"', '\n', 'b'] := by decide
+example : Umya.Spec.Xml.textValue (escape ['a', '&', '\r', '<', '"', '\n', 'b']) = some ['a', '&', '\r', '<', '"', '\n', 'b'] ∧
+    Umya.Spec.Xml.attrValue (attrEscape ['a', '\t', '\r', '\n', '"']) = some ['a', '\t', '\r', '\n', '"'] := by decide
 
 example : sheetWalk [⟨(1, 1), true, ['x']⟩, ⟨(1, 2), false, ['y']⟩, ⟨(1, 3), true, ['z']⟩] 1 = [((1, 1), some 1), ((1, 2), none), ((1, 3), some 2)] := by decide
 
